@@ -108,3 +108,11 @@ pub fn encoder_alpha_small(enc: &'static Encoding, base: &[u32]) -> Vec<u32> {
     }
     v.sort(); v.dedup(); v
 }
+
+/// UTF-8 tokens: whole characters of every length, every truncation of them, and the classic ill-formed subsequences
+pub fn utf8_tokens() -> Vec<&'static [u8]> {
+    vec![b"A", b"\x00", "\u{E9}".as_bytes(), "\u{4E00}".as_bytes(), "\u{1F4A9}".as_bytes(), "\u{FFFD}".as_bytes(), b"\xC3", b"\xE4", b"\xE4\xB8", b"\xF0", b"\xF0\x9F", b"\xF0\x9F\x92",
+         b"\x80", b"\xFF", b"\xED\xA0", b"\xE0\x80", b"\xF4\x90", b"\xC0\xAF", b"\xEF\xBB\xBF"]
+}
+/// UTF-16 code units for unit-level stream enumeration
+pub const UTF16_UNITS: [u16; 8] = [0x0000, 0x0041, 0xD800, 0xDBFF, 0xDC00, 0xDFFF, 0xFFFE, 0x4E00];
